@@ -282,27 +282,72 @@ pub fn c07_mapped_empty_body<S: Src>(s: &mut S) {
     let x = inp.get();
     let (toks, total) = gapped(s, x);
     let toks = &toks[..x.len()];
-    let eoi = SimpleSpan::from(total..total);
+    // the end-of-input span is NOT empty in general (it may cover trailing blanks): total+g .. total+g+w
+    let (g, w) = (s.upto(2) as usize, s.upto(2) as usize);
+    let eoi = SimpleSpan::from(total + g..total + g + w);
     let input = toks.map(eoi, |(t, s): &(u8, SimpleSpan)| (t, s));
     type XM<'a> = extra::Err<Cheap>;
     fn assert_parser<'a, I: chumsky::input::ValueInput<'a, Token = u8, Span = SimpleSpan>, O, P: Parser<'a, I, O, XM<'a>>>(p: P) -> P {
         p
     }
-    let p = assert_parser(empty().to_span().then(any().or_not()).then(empty().to_span()).then(any().repeated()));
+    let p = assert_parser(
+        empty().to_span().then(any().or_not()).then(empty().to_span()).then(any().repeated()).then(any().or_not().to_span()),
+    );
     let r = p.parse(input);
     contract(&r);
-    if let Some((((e0, first), e1), ())) = r.output() {
+    if let Some(((((e0, first), e1), ()), e2)) = r.output() {
         let n = toks.len();
         check!("C07:empty-match-has-empty-span", e0.start == e0.end);
         check!("C07:empty-match-has-empty-span", e1.start == e1.end);
+        // the last capture is an optional at the very end of the token list: it consumed nothing
+        check!("C07:empty-match-at-end-of-input-has-empty-span", e2.start == e2.end);
         if n >= 1 {
             check!("C07:empty-span-before-first-token", e0.end <= toks[0].1.start);
+            check!("C07:empty-span-after-last-token", e2.start >= toks[n - 1].1.end);
         }
         if n >= 2 && first.is_some() {
             check!("C07:empty-span-between-neighbours", toks[0].1.end <= e1.start && e1.end <= toks[1].1.start);
         }
     }
     cover!("cover:accept", r.has_output() && x.len() == 3);
+    cover!("cover:wide-eoi", r.has_output() && w == 2 && x.len() >= 1);
+}
+
+/// @harness props=C07:Q,C10:T,C20:T n=3 err=Cheap timeout=900 input=IterInput_over_(u8,SimpleSpan)_with_gapped_symbolic_spans_and_a_later_end-of-input_span
+/// @shape (t0 any?).to_span then any*.to_span   on IterInput, tokens carry gapped spans, the end-of-input span lies beyond the last token
+/// @symbolic t0: u8; per token: gap 0..=3, width 1..=3; gap before the end-of-input span 0..=2
+/// @aims a non-empty match on an IterInput spans from the start of its first consumed token to the END OF ITS LAST consumed token (not to the end of the input), also when that token is the last one
+pub fn c07_iter_gapped_body<S: Src>(s: &mut S) {
+    let t0 = s.u8();
+    let inp = Inp::<3>::any(s);
+    let x = inp.get();
+    let (toks, total) = gapped(s, x);
+    let n = x.len();
+    let g = s.upto(2) as usize;
+    let eoi = SimpleSpan::from(total + g..total + g);
+    let it = toks.into_iter().take(n);
+    let input = chumsky::input::IterInput::new(it, eoi);
+    type XM<'a> = extra::Err<Cheap>;
+    fn assert_parser<'a, I: chumsky::input::Input<'a, Token = u8, Span = SimpleSpan>, O, P: Parser<'a, I, O, XM<'a>>>(p: P) -> P {
+        p
+    }
+    let head = just(t0).then(just(t0).or_not()).map_with(|(_, b): (u8, Option<u8>), e| {
+        let sp: SimpleSpan = e.span();
+        (b.is_some(), sp)
+    });
+    let p = assert_parser(head.then(just(t0).repeated().to_span()));
+    let r = p.parse(input);
+    contract(&r);
+    if let Some(((two, sp), rest)) = r.output() {
+        let last = if *two { 1 } else { 0 };
+        check!("C07:mapped-span-starts-at-first-token", sp.start == toks[0].1.start);
+        check!("C07:mapped-span-ends-at-last-token", sp.end == toks[last].1.end);
+        if n == 3 {
+            check!("C07:mapped-span-of-following-match", rest.start == toks[2].1.start && rest.end == toks[2].1.end);
+        }
+    }
+    cover!("cover:match-ends-at-last-token-before-a-gap", r.has_output() && n == 2 && g > 0);
+    cover!("cover:reject", !r.has_output());
 }
 
 crate::harnesses! {
@@ -313,4 +358,5 @@ crate::harnesses! {
     c07_mapped_ref [6] = c07_mapped_ref_body;
     c07_mapped_nonempty [6] = c07_mapped_nonempty_body;
     c07_mapped_empty [6] = c07_mapped_empty_body;
+    c07_iter_gapped [6] = c07_iter_gapped_body;
 }
